@@ -1390,6 +1390,14 @@ impl<R: BufRead> Reader<R> {
             }
             // Decode as many rows as will fit in the current batch
             if self.block_cursor < self.block_data.len() {
+                if self.block_count == 0 {
+                    // All declared objects were decoded but bytes remain: the block does not
+                    // match the schema. Without this check the loop would never make progress.
+                    return Err(AvroError::ParseError(format!(
+                        "Avro block has {} trailing bytes after its declared object count",
+                        self.block_data.len() - self.block_cursor
+                    )));
+                }
                 let (consumed, records_decoded) = self
                     .decoder
                     .decode_block(&self.block_data[self.block_cursor..], self.block_count)?;
